@@ -66,21 +66,21 @@ ASSUMPTIONS = ["float regime: the implementations are compared with the exact Ra
                "every point weakly dominates the reference point (coordinates <= reference; equality = boundary points allowed); "
                "all points have the dimension of the reference point; 1..12 points; no NaN/inf",
                "the proof covers the specification hvCells/hvSlice (= Lebesgue measure of the union of boxes in every "
-               "dimension) and the two wrappers; pyhv's algorithm is transcribed (Core/HvSweep.lean) and proved to terminate "
-               "in every dimension and to be correct for d <= 3, for d >= 4 its equality with hvCells is validated by the "
-               "correspondence run (value and internal state), not proved; the C extension (_hv.c, variant 4 with AVL tree) "
-               "is validated against hvSlice only"]
-EXPLANATION = ("The ALGORITHM of pyhv (preProcess, hvRecursive with bounds pruning / ignore marking / remove / reinsert) is "
-               "transcribed in Core/HvSweep.lean and diffed on every hypervolume case against pyhv's value AND its observable "
-               "final state (hvRecursive calls per dimIndex, node order of every dimension list, ignore flags, area and volume "
-               "caches, bounds — read by wrapping Node.__init__/hvRecursive in the harness process) and against hvSlice; proved: "
-               "termination in every dimension with the lists restored, correctness for d <= 3 (sweep_1d, sweep_2d, sweep_3d — the "
-               "last through the general case), coordinate symmetry and the slab decomposition that the general step implements "
-               "(all d, leading and last coordinate); open: sweep_eq_hvCells_Statement for d >= 4 (reuse of cached areas/volumes "
-               "below bounds, ignore marks). "
-               "Theorems C15.* : hvCells = Lebesgue measure of the union of boxes (all dimensions), hvSlice = hvCells "
-               "(discrete Fubini), invariances, 1-D/2-D formulas, indicator_least, population_hv. Both implementations are "
-               "diffed against hvSlice on exactly representable inputs; an inclusion-exclusion oracle checks them independently.")
+               "dimension), the two wrappers, and the transcription Core/HvSweep.lean of pyhv's algorithm (correct in every "
+               "dimension over exact rationals); that pyhv.py executes that transcription is checked by the correspondence run "
+               "(value and internal state), float rounding is outside the proof; the C extension (_hv.c, variant 4 with AVL "
+               "tree) is validated against hvSlice only"]
+EXPLANATION = ("The ALGORITHM of pyhv (preProcess, hvRecursive with bounds pruning / cached areas and volumes / ignore marking / "
+               "remove / reinsert) is transcribed in Core/HvSweep.lean and diffed on every hypervolume case against pyhv's value AND "
+               "its observable final state (hvRecursive calls per dimIndex, node order of every dimension list, ignore flags, area "
+               "and volume caches, bounds — read by wrapping Node.__init__/hvRecursive in the harness process) and against hvSlice. "
+               "Proved: C15.sweep_eq_hvCells — the transcription returns hvCells in EVERY dimension (induction over the levels with "
+               "an invariant on the multi-list: lists = static orders restricted to the present nodes, caches below the bounds = "
+               "hypervolume of the prefix, ignore marks = domination by an earlier present node), termination with the lists "
+               "restored, coordinate symmetry, slab decomposition. Theorems C15.* : hvCells = Lebesgue measure of the union of boxes "
+               "(all dimensions), hvSlice = hvCells (discrete Fubini), invariances, 1-D/2-D formulas, indicator_least, population_hv. "
+               "Both implementations are diffed against hvSlice on exactly representable inputs; an inclusion-exclusion oracle checks "
+               "them independently.")
 
 KNOWN_ID = "pyhv-tied-coordinates"
 
